@@ -1,0 +1,97 @@
+//go:build verif
+
+package cloudprovider
+
+// Verification hooks (compiled only with -tags verif; nothing here is reachable from a normal build).
+//
+// Everything that touches the cache runs *inside the goroutine that executes Run* (the owner of the
+// cache): the closure travels over the existing emitChan wrapped in a Statser, and the owner loop
+// executes it from emit() exactly like a metrics flush.  Therefore the hooks can never race with
+// handleInstanceInfo / doRefresh, and when VerifInOwner returns, everything the owner loop received
+// before it has been processed completely (it is also a fence).  Peek() from other goroutines is kept
+// safe by holding the write lock while holders are modified.
+
+import (
+	"context"
+	"sync/atomic"
+	"time"
+
+	"github.com/atlassian/gostatsd"
+	"github.com/atlassian/gostatsd/pkg/stats"
+)
+
+// verifStatser carries a closure to the owner loop. emit() only ever calls Gauge.
+type verifStatser struct {
+	stats.Statser // nil; no other method is called by emit()
+	f             func()
+	ran           bool
+	done          chan struct{}
+}
+
+func (v *verifStatser) Gauge(name string, value float64, tags gostatsd.Tags) {
+	if !v.ran {
+		v.ran = true
+		v.f()
+		close(v.done)
+	}
+}
+
+// VerifInOwner runs f in the owner goroutine (between two iterations of Run's select loop) and waits
+// until it has finished. It returns false if ctx ended first.
+func (ccp *CachedCloudProvider) VerifInOwner(ctx context.Context, f func()) bool {
+	vs := &verifStatser{f: f, done: make(chan struct{})}
+	select {
+	case ccp.emitChan <- vs:
+	case <-ctx.Done():
+		return false
+	}
+	select {
+	case <-vs.done:
+		return true
+	case <-ctx.Done():
+		return false
+	}
+}
+
+// VerifRetime replaces every stored time stamp x (last access and expiry of every holder) by f(x).
+func (ccp *CachedCloudProvider) VerifRetime(ctx context.Context, f func(time.Time) time.Time) bool {
+	return ccp.VerifInOwner(ctx, func() {
+		ccp.rw.Lock()
+		defer ccp.rw.Unlock()
+		for _, h := range ccp.cache {
+			atomic.StoreInt64(&h.lastAccessNano, f(time.Unix(0, h.lastAccess())).UnixNano())
+			h.expires = f(h.expires)
+		}
+	})
+}
+
+// VerifAge makes every entry d older: a uniform translation of all stored time stamps by -d
+// ("d elapses" without waiting; time.Now() cannot be replaced from outside).
+func (ccp *CachedCloudProvider) VerifAge(ctx context.Context, d time.Duration) bool {
+	return ccp.VerifRetime(ctx, func(t time.Time) time.Time { return t.Add(-d) })
+}
+
+// VerifCounts is what the cache really holds, read in the owner goroutine.
+type VerifCounts struct {
+	Positive       int // entries with an instance
+	Negative       int // entries without
+	PendingLookups int // len(toLookupIPs)
+	PendingReturns int // len(toReturnInfo)
+}
+
+// VerifSnapshot counts the entries of the cache map (not the counters).
+func (ccp *CachedCloudProvider) VerifSnapshot(ctx context.Context) (VerifCounts, bool) {
+	var c VerifCounts
+	ok := ccp.VerifInOwner(ctx, func() {
+		for _, h := range ccp.cache {
+			if h.instance == nil {
+				c.Negative++
+			} else {
+				c.Positive++
+			}
+		}
+		c.PendingLookups = len(ccp.toLookupIPs)
+		c.PendingReturns = len(ccp.toReturnInfo)
+	})
+	return c, ok
+}
